@@ -89,6 +89,18 @@ pub fn rt_edge_image() -> ImageSet {
     filled_image("G9w-rt-edge", "rt-edge", 140, 4094)
 }
 
+/// 1 KiB clusters over 512-byte blocks, 64-bit refcounts: one refcount-table cluster = 128 refblocks
+/// of 128 clusters = 16 MiB of host file
+pub fn g10_wide(tables: u64) -> Geo {
+    Geo { name: "G10w", cluster_bits: 10, order: 6, version: 3, bs_bits: 9, l2_slice_bits: 9, rb_slice_bits: 9, tables, extra_clusters: 0 }
+}
+
+/// the refcount table's end with clusters bigger than a block: the relocated table grows by one
+/// block, i.e. its last cluster is used only partly (16382 of 16384 clusters in use; 16 MiB file)
+pub fn rt_edge_1k_image() -> ImageSet {
+    filled_image_geo("G10w-rt-edge", "rt-edge-1k", &g10_wide(136), 128 * 128 - 2)
+}
+
 /// refcount blocks 0..62 exist and are full but for two clusters: the next allocations create
 /// refcount block 63, the last entry of the refcount table's first (only) 512-byte block
 pub fn rb63_edge_image() -> ImageSet {
@@ -158,6 +170,7 @@ pub fn find_extra_image(name: &str) -> Option<ImageSet> {
         "G9w-rb-edge" => Some(rb_edge_image()),
         "G9w-rt-edge" => Some(rt_edge_image()),
         "G9w-rb63-edge" => Some(rb63_edge_image()),
+        "G10w-rt-edge" => Some(rt_edge_1k_image()),
         "GF-filled" => Some(gf_filled_image()),
         "GF-holes" => Some(gf_holes_image()),
         "G9w-short-l1" => Some(short_l1_image()),
